@@ -30,6 +30,7 @@ def run(rep, tier):
     guards(rep, F)
     const_generics(rep, F)
     tolerance_consistency(rep, F)
+    rdp_metric(rep, F)
 
 
 ENTRIES = [
@@ -175,6 +176,7 @@ def const_generics(rep, F):
 
 
 def tolerance_consistency(rep, F):
+    rep.rule("R9.7", "the Visvalingam removal loop stops exactly at `smallest area > eps` (every area/eps comparison of the engine is that predicate or its complement)")
     rep.rule("R9.5", "within one VW engine every comparison of a triangle area with eps agrees at area == eps (all sites equal or complementary as predicates)")
     for name in ("visvalingam_indices", "visvalingam_preserve"):
         try:
@@ -211,7 +213,103 @@ def tolerance_consistency(rep, F):
         tvs = list(vecs)
         base = tvs[0]
         incons = [tv for tv in tvs if tv != base and tv != tuple(1 - x for x in base)]
+        stop = [tv for tv in tvs if tv not in ((0, 0, 1), (1, 1, 0))]
+        if stop and not incons:
+            rep.bad("R9.7", "stop-rule:" + name, "the removal loop compares with %s: it must run while the smallest area is <= eps and stop only at area > eps, otherwise a vertex whose "
+                    "triangle area equals eps survives (the result must keep only vertices with area greater than eps)" % vecs[stop[0]][:2], where=fn.loc())
+        elif not incons:
+            rep.ok("R9.7", "stop-rule:" + name)
         if incons:
             rep.bad("R9.5", "inconsistent:" + name, "tolerance comparisons disagree when a triangle area equals eps: %s versus %s" % (vecs[base][:2], vecs[incons[0]][:2]), where=fn.loc())
         else:
             rep.ok("R9.5", "%s[%d sites]" % (name, sum(len(v) for v in vecs.values())), sample=[x for v in vecs.values() for x in v][:4])
+
+
+def rdp_metric(rep, F):
+    """R9.6: shape of compute_rdp that the eps bound rests on (necessary conditions, not the bound itself)."""
+    from .c01 import opaque
+    from ..symex import bare
+    from ..evalterm import Evaluator, NoModel
+    rep.rule("R9.6", "compute_rdp: vertices are culled only on `farthest > eps` false, where farthest is the maximum over ALL interior vertices of the "
+                     "Euclidean point-to-SEGMENT distance to Line(first, last); the split recursion keeps the farthest vertex")
+    try:
+        fn = F.one(r"^geo::algorithm::simplify::compute_rdp$", crates=("geo",))
+        paths = opaque(F, loop_bound=1).run(fn)
+    except (KeyError, Unanalysable) as e:
+        rep.bad("R9.6", "anchor", str(e))
+        return
+    folds = set()
+    culls = 0
+    for p in paths:
+        if p.kind != "ret":
+            continue
+        r = bare(p.ret)
+        atoms = [(bare(t), v) for t, v in p.pc]
+        if r.startswith("vec!([a1[0], a1[(len(a1) Sub 1)]])") and ("(len(a1) == 2)", 0) in atoms:
+            culls += 1
+            g = [(a, v) for a, v in atoms if a.startswith("(a3 < fold(") or a.endswith(" <= a3)") and a.startswith("(fold(")]
+            if not g or not ((g[-1][0].startswith("(a3 < ") and g[-1][1] == 0) or (g[-1][0].startswith("(fold(") and g[-1][1] == 1)):
+                rep.bad("R9.6", "cull-guard", "interior vertices are culled on a path that did not establish `farthest_distance <= eps` (path: %s)" % show_pc(p.pc)[:200], where=fn.loc())
+                return
+            folds.add(g[-1][0])
+    if culls == 0 or len(folds) != 1:
+        rep.bad("R9.6", "shape", "the cull exit of compute_rdp was not recognised (%d cull paths, %d guards)" % (culls, len(folds)), where=fn.loc())
+        return
+    fold = folds.pop()
+    if "fold(map(skip(take(enumerate(iter(a1)), (len(a1) Sub 1)), 1), closure[" not in fold or ", (0, zero()), closure[" not in fold:
+        rep.bad("R9.6", "coverage", "the farthest distance is %s; expected the fold over every interior vertex (enumerate, take(len-1), skip(1)), starting from zero" % fold[:240], where=fn.loc())
+        return
+    chord_ok = "closure[new(a1[0].coord, a1[(len(a1) Sub 1)].coord)]" in fold
+    rep.ok("R9.6", "cull-guard+coverage")
+    cl = F.closures_of(fn)
+    mapc = [g for g in cl if any((c.method == "distance" and (c.trait or "").endswith("Distance")) for c in g.calls())]
+    other = [g for g in cl if g not in mapc]
+    # the metric: exactly one geo call in the map closure, the Euclidean Coord/Point-to-Line distance, applied to the vertex and the captured chord
+    ok_metric = False
+    for g in cl:
+        for q in opaque(F).run(g):
+            if q.kind == "ret" and bare(q.ret) == "(a2.0, distance(Euclidean::Euclidean(), a2.1.coord, a1.0))":
+                for c in g.calls():
+                    if c.method == "distance":
+                        tys = [str(t) for t in c.raw.get("arg_tys", [])]
+                        if len(tys) == 3 and tys[0].endswith("Euclidean") and re.search(r"(coord::Coord|point::Point)<T>$", tys[1]) and re.search(r"^&.*line::Line<T>$", tys[2]):
+                            ok_metric = chord_ok
+    if ok_metric:
+        rep.ok("R9.6", "metric:point-to-segment")
+    else:
+        descr = []
+        for g in cl:
+            for q in opaque(F).run(g):
+                if q.kind == "ret":
+                    descr.append(bare(q.ret)[:160])
+        rep.bad("R9.6", "metric", "the per-vertex value is not Euclidean.distance(vertex.coord, &Line(first, last)) (the distance to the SEGMENT); closures return %s. A distance to the "
+                "infinite chord line under-estimates for back-tracking vertices, which are then dropped although farther than eps from the retained segment" % descr[:3], where=fn.loc())
+    # the fold keeps the maximum
+    okmax = False
+    for g in cl:
+        qs = [q for q in opaque(F).run(g) if q.kind == "ret"]
+        if len(qs) == 2 and all(len(q.pc) == 1 for q in qs):
+            good = True
+            for d0, d1 in ((1, 2), (2, 1), (2, 2)):
+                ev = Evaluator(F, {("arg", 2): {"0": 10, "1": d0}, ("arg", 3): {"0": 20, "1": d1}}, {})
+                try:
+                    hit = ev.select_path(qs)
+                    val = ev.ev(hit[0].ret) if len(hit) == 1 else None
+                except NoModel:
+                    val = None
+                dist = val[1] if isinstance(val, (tuple, list)) else (val or {}).get("1") if isinstance(val, dict) else None
+                idx = val[0] if isinstance(val, (tuple, list)) else (val or {}).get("0") if isinstance(val, dict) else None
+                if dist != max(d0, d1) or (d0 != d1 and idx != (10 if d0 > d1 else 20)):
+                    good = False
+            if good:
+                okmax = True
+    if okmax:
+        rep.ok("R9.6", "fold:max")
+    else:
+        rep.bad("R9.6", "fold", "the fold over the interior vertices does not keep the (index, distance) pair with the maximum distance", where=fn.loc())
+    # recursion: both halves share the farthest vertex
+    rec = [bare(p.ret) for p in paths if p.kind == "ret" and "compute_rdp(" in bare(p.ret)]
+    if rec and all("RangeToInclusive" in r for r in rec):
+        rep.ok("R9.6", "split:[..=k]")
+    else:
+        rep.bad("R9.6", "split", "the recursive split is %s; expected compute_rdp(&v[..=k]) followed by compute_rdp(&v[k..])" % [r[:120] for r in rec][:1], where=fn.loc())
